@@ -414,6 +414,7 @@ class Ctx:
         'fmtumble': ('GenFM', ['t_tumble']),
         'ucorr': ('GenU', ['t_fast', 't_full']),
         'uint': ('GenU', ['t_integration']),
+        'urefine': ('GenU', ['t_refine_mixins']),
         'dcommon': ('GenD', ['t_common', 't_logscale']),
         'dudf': ('GenD', ['t_udf']),
         'dint': ('GenD', ['t_integration']),
